@@ -162,7 +162,7 @@ def run(out, prelude):
              "of length <= %d over an 8-operation alphabet; non-trivial = at least one state change precedes the "
              "first write (so a store call must happen); distinct by operation list" % exh,
         samples=[dict(ops=c["ops"], trace=c["trace"]) for c in cases[:2]],
-        exhaustive_part="all programs of length <= %d over 8 operations" % exh,
+        exhaustive_part="all programs of length <= %d over 9 operations (one of them a zero-length write)" % exh,
         traces_validated_against_impl=len(cases),
     )
     vlib.clean_cases("C11_gen")
